@@ -100,9 +100,9 @@ def postStr : Nat → Str
 /-- `SimpleCommand::fmt`: the three parts separated by one blank (`wrote_something`) -/
 def joinSp (a b : Str) : Str := if a.isEmpty then b else if b.isEmpty then a else a ++ ' ' :: b
 
-/-- what `RedirectList::fmt` / `Command::Compound` / `FunctionBody` write in front of each redirect
-of a compound command: nothing (the source of `done> /dev/null2>& 1`). -/
-def redirSep : Str := []
+/-- what `RedirectList::fmt` writes in front of each redirect of a compound command / function
+body: one blank (`done > /dev/null 2>& 1`). -/
+def redirSep : Str := [' ']
 
 mutual
 def printRedir : Redir → Str
@@ -118,7 +118,7 @@ def printRedirs : Redirs → Str
 def printSItem : SItem → Str
   | .word w => w
   | .redir r => printRedir r
-  | .procSub dir body => dir ++ "(( ".toList ++ printItems body ++ " ))".toList
+  | .procSub dir body => dir ++ "( ".toList ++ printItems body ++ " )".toList
 def printSItems : SItems → Str
   | .nil => []
   | .cons i .nil => printSItem i
@@ -130,7 +130,7 @@ def printCmd : Cmd → Str
   | .fdef name c rs => name ++ " () \n".toList ++ (printCompound c ++ printRedirs rs)
 def printCmds : Cmds → Str
   | .nil => []
-  | .cons c rest => " |".toList ++ printCmd c ++ printCmds rest
+  | .cons c rest => " | ".toList ++ printCmd c ++ printCmds rest
 def printPipeline : Pipeline → Str
   | .mk timed bang first rest =>
     (if timed = 0 then [] else if timed = 1 then "time ".toList else "time -p ".toList) ++
@@ -150,8 +150,8 @@ def printCompound : Compound → Str
       ("do\n".toList ++ indent (printItems body) ++ "\ndone".toList)
   | .brace l => "{ \n".toList ++ indent (printItems l) ++ "\n}".toList
   | .sub l => "( ".toList ++ printItems l ++ " )".toList
-  | .forIn v _ ws body =>
-    "for ".toList ++ v ++ " in ".toList ++ joinWords ws ++ ";\n".toList ++
+  | .forIn v hasIn ws body =>
+    "for ".toList ++ v ++ (if hasIn then " in ".toList ++ joinWords ws else []) ++ ";\n".toList ++
       ("do\n".toList ++ indent (printItems body) ++ "\ndone".toList)
   | .case w items => "case ".toList ++ w ++ " in".toList ++ printCaseItems items ++ "\nesac".toList
   | .ifC cond thn elses =>
